@@ -257,6 +257,124 @@ Definition fgi (use_defaults fast : bool) (dstar dzero done : N) (g1 g2 : graph)
                           (fun h p => N.eqb (getd 4 done h) (getd 4 done p)) g1 g2
        else giso0 g1 g2.
 
+
+(** ---------- the raw option layer of the boolean subgraph entry points ----------
+    What the caller passes, before any normalisation: two parallel lists (names, defaults) that the code zips, the edge
+    attribute as given (None / "" / a name), check_type as a STRING (interned; code 0 = "induced" — every other spelling
+    selects the monomorphism test), comparators possibly None, and for the facade is_subgraph the back-end name.
+    An entry point answers a boolean or raises. *)
+Inductive res := RB (b : bool) | RErr (code : N).         (* 1 TypeError, 2 ImportError, 3 ValueError *)
+Inductive sub_fn := FnSM | FnIS | FnGM.                   (* SubgraphMatch.subgraph_isomorphism | SubgraphMatch.is_subgraph |
+                                                             graph_morphism.subgraph_isomorphism *)
+Inductive eattr_raw := EaNone | EaEmpty (k : N) | EaKey (k : N).   (* edge_attribute = None | "" (k = key code of "") | a name *)
+Record sub_opts := SO { o_names : list N; o_defaults : list N; o_eattr : eattr_raw; o_filter : bool; o_ctype : N;
+                        o_nc : option cmp; o_ec : option cmp; o_backend : N }.       (* backend: 0 "nx", 1 "mod", other: unknown *)
+
+Definition cmp_or_eq (c : option cmp) : cmp := match c with Some x => x | None => CEq end.       (* node_comparator or eq *)
+Definition o_induced (o : sub_opts) : bool := N.eqb (o_ctype o) 0.                               (* check_type == "induced" *)
+Definition o_sel (o : sub_opts) : list (N * N) := combine (o_names o) (o_defaults o).            (* zip(names, defaults) *)
+(** `if edge_attribute:` — the label filter of both modules, and the edge matcher of graph_morphism, look at truthy names only *)
+Definition ea_truthy (a : eattr_raw) : option N := match a with EaKey k => Some k | _ => None end.
+(** generic_edge_match(edge_attribute, None, cmp) of SubgraphMatch: "" is an ordinary (absent) attribute name; None raises *)
+Definition ea_sm (a : eattr_raw) : option N := match a with EaKey k => Some k | EaEmpty k => Some k | EaNone => None end.
+Definition rule_available : bool := false.                 (* `mod` is not installed: _RULE_AVAILABLE = False *)
+
+(** both subgraph_isomorphism functions with the filter's and the matcher's edge attribute kept apart *)
+Definition sub_iso2 (use_filter induced : bool) (nc ec : cmp) (names : list (N * N)) (ef em : option N) (child parent : graph) : bool :=
+  if use_filter && negb (sub_filter nc ec names ef child parent) then false
+  else vf2b induced (nm_subc nc names) (em_subc ec em) parent child.
+
+Definition entry_sm (o : sub_opts) (child parent : graph) : res :=
+  let nc := cmp_or_eq (o_nc o) in let ec := cmp_or_eq (o_ec o) in
+  (* the filter runs first and may answer False before generic_edge_match is reached *)
+  if o_filter o && negb (sub_filter nc ec (o_sel o) (ea_truthy (o_eattr o)) child parent) then RB false
+  else match o_eattr o with
+       | EaNone => RErr 1
+       | _ => RB (vf2b (o_induced o) (nm_subc nc (o_sel o)) (em_subc ec (ea_sm (o_eattr o))) parent child)
+       end.
+Definition entry_gm (o : sub_opts) (child parent : graph) : res :=
+  RB (sub_iso2 (o_filter o) (o_induced o) (cmp_or_eq (o_nc o)) (cmp_or_eq (o_ec o)) (o_sel o)
+               (ea_truthy (o_eattr o)) (ea_truthy (o_eattr o)) child parent).
+(** is_subgraph forwards (pattern, host, names, defaults, edge_attribute, use_filter, check_type) positionally; no comparators *)
+Definition no_cmps (o : sub_opts) : sub_opts :=
+  SO (o_names o) (o_defaults o) (o_eattr o) (o_filter o) (o_ctype o) None None (o_backend o).
+Definition entry_is (o : sub_opts) (pattern host : graph) : res :=
+  if N.eqb (o_backend o) 0 then entry_sm (no_cmps o) pattern host
+  else if N.eqb (o_backend o) 1 then (if rule_available then RErr 0 else RErr 2)
+  else RErr 3.
+Definition sub_entry (fn : sub_fn) (o : sub_opts) (child parent : graph) : res :=
+  match fn with FnSM => entry_sm o child parent | FnIS => entry_is o child parent | FnGM => entry_gm o child parent end.
+
+(** intermediate value observed by the correspondence: was a GraphMatcher constructed (= the filter let the call through, and
+    nothing was raised before), and which of its methods decided: 2 subgraph_is_isomorphic, 4 subgraph_is_monomorphic, 0 none *)
+Definition entry_trace (fn : sub_fn) (o : sub_opts) (child parent : graph) : N :=
+  let o' := match fn with FnIS => no_cmps o | _ => o end in
+  let nc := cmp_or_eq (o_nc o') in let ec := cmp_or_eq (o_ec o') in
+  match fn, N.eqb (o_backend o) 0 with
+  | FnIS, false => 0%N
+  | _, _ =>
+    if o_filter o' && negb (sub_filter nc ec (o_sel o') (ea_truthy (o_eattr o')) child parent) then 0%N
+    else match fn, o_eattr o' with
+         | FnGM, _ => if o_induced o' then 2%N else 4%N
+         | _, EaNone => 0%N
+         | _, _ => if o_induced o' then 2%N else 4%N
+         end
+  end.
+
+(** ---------- find_graph_isomorphism: the mapping it returns (matcher.mapping of GraphMatcher(G1, G2): G1 node -> G2 node) ----------
+    [enum nm em G1 G2] lists (G2 node, G1 node) pairs (pattern -> host, host = G1); the first one, inverted.  WHICH isomorphism comes
+    first is VF2's business: the theorems hold for any enumeration meeting the contract, the correspondence compares the size. *)
+Definition swap_pairs (m : mapping) : mapping := map (fun ph => (snd ph, fst ph)) m.
+Definition fgi_map (use_defaults fast : bool) (dstar dzero done : N) (g1 g2 : graph) : option mapping :=
+  if fgi use_defaults fast dstar dzero done g1 g2
+  then Some (match (if use_defaults
+                    then enum (nm_sub [(1%N, dstar); (5%N, dzero); (0%N, 0%N)]) (fun h p => N.eqb (getd 4 done h) (getd 4 done p)) g1 g2
+                    else enum any_attrs any_attrs g1 g2) with m :: _ => swap_pairs m | [] => [] end)
+  else None.
+
+(** ---------- intermediate values of the engine calls ----------
+    isomorphic: which graph is handed to _pre_check as host / pattern (indices), its answer, and the GraphMatcher method that
+    decides (0 none, 1 is_isomorphic, 2 subgraph_is_isomorphic); the matcher is GraphMatcher(smaller, larger) *)
+Definition iso_trace (e : engine) (i : nat) (g1 : graph) (j : nat) (g2 : graph) (c : cache) : list N :=
+  let '(a, ga, b, gb) := if n_nodes g2 <? n_nodes g1 then (j, g2, i, g1) else (i, g1, j, g2) in
+  let ok := fst (pre_check e b gb a ga c) in
+  [N.of_nat b; N.of_nat a; if ok then 1%N else 0%N;
+   if ok then (if n_nodes ga =? n_nodes gb then 1%N else 2%N) else 0%N].
+(** get_mappings: _pre_check's answer and the method used: 0 none, 1 is_isomorphic (equal counts), 3 subgraph_isomorphisms_iter;
+    the matcher is GraphMatcher(host, pattern) *)
+Definition maps_trace (e : engine) (hi : nat) (H : graph) (pi : nat) (P : graph) (c : cache) : list N :=
+  let ok := fst (pre_check e hi H pi P c) in
+  [if ok then 1%N else 0%N;
+   if ok then (if (n_nodes P =? n_nodes H) && (n_edges P =? n_edges H) then 1%N else 3%N) else 0%N].
+
+(** ---------- GraphMatcherEngine.__init__: option normalisation ----------
+    backend: lower-cased, must be an available back-end ("nx"; "mod" only when the mod package is importable — it is not);
+    node_attrs / edge_attrs: `tuple(x or ())`; wl1_filter: `bool(x)` (the truthiness of the value is computed by the caller's
+    Python, the model receives it); max_mappings kept as given (default 1).  Outer None = keyword omitted. *)
+Record eng_raw := ER { r_backend : option (list N);                                   (* the string as ASCII codes *)
+                       r_na : option (option (list N)); r_ea : option (option (list N));   (* omitted | None | list *)
+                       r_wl : option bool; r_mm : option (option N) }.
+Definition ascii_lower (c : N) : N := if (65 <=? c)%N && (c <=? 90)%N then (c + 32)%N else c.
+Definition s_nx : list N := [110; 120]%N.
+Definition s_mod : list N := [109; 111; 100]%N.
+Definition s_rule : list N := [114; 117; 108; 101]%N.
+Definition available_backends : list (list N) := s_nx :: (if rule_available then [s_mod] else []).
+Definition r_backend_lower (r : eng_raw) : list N := map ascii_lower (match r_backend r with Some s => s | None => s_nx end).
+Definition eng_ctor (r : eng_raw) : engine + N :=
+  let be := r_backend_lower r in
+  if negb (any (ln_eqb be) available_backends) then inr 3%N                          (* ValueError: unsupported backend *)
+  else if ln_eqb be s_rule && negb rule_available then inr 2%N                        (* ImportError *)
+  else inl (Eng (match r_na r with Some (Some l) => l | _ => [] end)
+                (match r_ea r with Some (Some l) => l | _ => [] end)
+                (match r_wl r with Some b => b | None => false end)
+                (match r_mm r with Some m => m | None => Some 1%N end)).
+Definition eng_of (r : eng_raw) : engine := match eng_ctor r with inl e => e | inr _ => Eng [] [] false None end.
+Definition tctor (r : eng_raw) : tok :=
+  match eng_ctor r with
+  | inl e => L [tlist tN (e_na e); tlist tN (e_ea e); tbool (e_wl e); topt tN (e_mm e)]
+  | inr k => L [tN 99; tN k]
+  end.
+
 (** ---------- histories ---------- *)
 Inductive query :=
 | QIso (e i j : nat)
@@ -265,12 +383,15 @@ Inductive query :=
 | QSub (gm : bool) (child parent : nat) (use_filter induced : bool) (nc ec : cmp) (names : list (N * N)) (eattr : option N)
 | QGiso (i j : nat) (dstar dzero done : N)
 | QGiso0 (i j : nat)
-| QFgi (i j : nat) (use_defaults fast : bool) (dstar dzero done : N).
+| QFgi (i j : nat) (use_defaults fast : bool) (dstar dzero done : N)
+| QEntry (fn : sub_fn) (child parent : nat) (o : sub_opts)
+| QCtor (r : eng_raw).
 
 Definition gnth (gs : list graph) (i : nat) : graph := nth i gs (LG [] []).
 Definition enth (es : list engine) (i : nat) : engine := nth i es (Eng [] [] false None).
 
 Definition tmapping (m : mapping) : tok := tset (tpair tN tN) m.
+Definition tres (r : res) : tok := match r with RB b => tbool b | RErr k => L [tN 99; tN k] end.
 
 Definition determined (e : engine) (H P : graph) : bool :=
   match e_mm e with
@@ -280,15 +401,23 @@ Definition determined (e : engine) (H P : graph) : bool :=
 
 Definition step (gs : list graph) (es : list engine) (q : query) (c : cache) : tok * cache :=
   match q with
-  | QIso e i j => let '(b, c') := isomorphic (enth es e) i (gnth gs i) j (gnth gs j) c in (tbool b, c')
+  | QIso e i j => let '(b, c') := isomorphic (enth es e) i (gnth gs i) j (gnth gs j) c in
+                  (L [tbool b; tlist tN (iso_trace (enth es e) i (gnth gs i) j (gnth gs j) c)], c')
   | QPre e h p => let '(b, c') := pre_check (enth es e) h (gnth gs h) p (gnth gs p) c in (tbool b, c')
   | QMaps e h p =>
       let '(l, c') := get_mappings (enth es e) h (gnth gs h) p (gnth gs p) c in
-      (L [tnat (length l); tset tmapping (if determined (enth es e) (gnth gs h) (gnth gs p) then l else [])], c')
+      (L [tnat (length l); tset tmapping (if determined (enth es e) (gnth gs h) (gnth gs p) then l else []);
+          tlist tN (maps_trace (enth es e) h (gnth gs h) p (gnth gs p) c)], c')
   | QSub _ ch pa f ind nc ec names eattr => (tbool (sub_iso f ind nc ec names eattr (gnth gs ch) (gnth gs pa)), c)
   | QGiso i j a b d => (tbool (giso a b d (gnth gs i) (gnth gs j)), c)
   | QGiso0 i j => (tbool (giso0 (gnth gs i) (gnth gs j)), c)
-  | QFgi i j ud fa a b d => (tbool (fgi ud fa a b d (gnth gs i) (gnth gs j)), c)
+  | QFgi i j ud fa a b d =>
+      (match fgi_map ud fa a b d (gnth gs i) (gnth gs j) with
+       | Some m => L [tbool true; tnat (length m)]
+       | None => L [tbool false; tnat 0]
+       end, c)
+  | QEntry fn ch pa o => (L [tres (sub_entry fn o (gnth gs ch) (gnth gs pa)); tN (entry_trace fn o (gnth gs ch) (gnth gs pa))], c)
+  | QCtor r => (tctor r, c)
   end.
 
 Fixpoint run_from (gs : list graph) (es : list engine) (qs : list query) (c : cache) : list tok :=
@@ -304,6 +433,13 @@ Fixpoint end_cache (gs : list graph) (es : list engine) (qs : list query) (c : c
   | q :: r => end_cache gs es r (snd (step gs es q c))
   end.
 
+(** the key set of the cache after EVERY step (intermediate state observed by the correspondence) *)
+Fixpoint cache_trace (gs : list graph) (es : list engine) (qs : list query) (c : cache) : list (list ckey) :=
+  match qs with
+  | [] => []
+  | q :: r => let c' := snd (step gs es q c) in map fst c' :: cache_trace gs es r c'
+  end.
+
 (** histories in which the caller edits graph OBJECTS in place between queries: [HEdit i k] turns object i into the graph
     value k of the case; the object keeps its identity, so its cache entries stay (and go stale, as the class documents) *)
 Inductive hstep := HQ (q : query) | HEdit (i k : nat).
@@ -312,6 +448,12 @@ Fixpoint set_nth {X : Type} (l : list X) (i : nat) (x : X) : list X :=
   | [], _ => []
   | _ :: r, O => x :: r
   | y :: r, S i' => y :: set_nth r i' x
+  end.
+Fixpoint hist_trace (gs0 cur : list graph) (es : list engine) (hs : list hstep) (c : cache) : list (list ckey) :=
+  match hs with
+  | [] => []
+  | HQ q :: r => let c' := snd (step cur es q c) in map fst c' :: hist_trace gs0 cur es r c'
+  | HEdit i k :: r => hist_trace gs0 (set_nth cur i (gnth gs0 k)) es r c
   end.
 Fixpoint run_hist (gs0 cur : list graph) (es : list engine) (hs : list hstep) (c : cache) : list tok * cache :=
   match hs with
@@ -332,9 +474,12 @@ Definition tcache (c : cache) : tok :=
     observable is a flag computed by comparing every graph object with its expected value after every query. *)
 Definition inputs_unmodified : tok := tbool true.
 
+Definition tkeys (ks : list ckey) : tok := tset (fun k : ckey => L [tnat (fst k); tlist tN (snd k)]) ks.
 Definition run (gs : list graph) (es : list engine) (qs : list query) : tok :=
-  L (run_from has_mono (monos_g true) gs es qs [] ++ [tcache (end_cache has_mono (monos_g true) gs es qs []); inputs_unmodified]).
+  L (run_from has_mono (monos_g true) gs es qs [] ++
+     [tlist tkeys (cache_trace has_mono (monos_g true) gs es qs []);
+      tcache (end_cache has_mono (monos_g true) gs es qs []); inputs_unmodified]).
 
 Definition run_h (gs0 : list graph) (nobj : nat) (es : list engine) (hs : list hstep) : tok :=
   let r := run_hist has_mono (monos_g true) gs0 (firstn nobj gs0) es hs [] in
-  L (fst r ++ [tcache (snd r); inputs_unmodified]).
+  L (fst r ++ [tlist tkeys (hist_trace has_mono (monos_g true) gs0 (firstn nobj gs0) es hs []); tcache (snd r); inputs_unmodified]).
